@@ -490,6 +490,9 @@ func (g *G) anyExpr(depth int, role string) *N {
 		acc := []string{"val", "err?"}[g.t.Intn(2)]
 		return &N{K: KTry, A: g.intExpr(depth-1, "try/recv"), B: g.funcLit(1, nil, false, g.t.Chance(1, 2), depth, []string{"x"}), Str: acc}
 	}
+	if g.p.ChainW > 0 && g.t.Chance(1, 18) {
+		return g.lonelyNil(depth - 1)
+	}
 	switch g.t.Pick(6, lw, lw, lw/2, lw/2, lw/2, 2, g.p.ChainW, 2) {
 	case 0:
 		return g.intExpr(depth, role)
@@ -583,7 +586,7 @@ func (g *G) callArgs(c *N, np int, kw []string, depth int, slotsAllowed bool) {
 		}
 	}
 	for _, k := range kwList {
-		if g.t.Chance(1, 4) && kwWithSlots == 0 {
+		if g.noBrace == 0 && g.t.Chance(1, 4) && kwWithSlots == 0 {
 			// pass through `**{k: e}`; sometimes twice with the same key (the first occurrence wins)
 			for rep := 1 + g.t.Pick(3, 1); rep > 0; rep-- {
 				inner := &N{K: KObj, L: []*N{g.intExpr(depth, "call/starstar")}, Names: []string{k}, Star: []int{0}}
@@ -719,6 +722,41 @@ func (g *G) iterLit(depth int) *N {
 	g.intVars = saved
 	g.selfMethods = savedSelf
 	return it
+}
+
+// lonelyNil: a lonely scalar step on a nil receiver. The step is skipped (nil), yet its
+// chain argument and arguments are evaluated like those of any other call.
+func (g *G) lonelyNil(depth int) *N {
+	var recv *N
+	if g.t.Chance(1, 2) {
+		recv = g.slot("nil", "chain/recv")
+	} else {
+		recv = &N{K: KNil}
+	}
+	ch := Chain{Main: '.', Add: '&'}
+	if g.t.Chance(1, 4) {
+		ch.Arg = g.intExpr(depth, "chain/chainarg")
+	}
+	switch g.t.Pick(2, 2, 1) {
+	case 0:
+		c := &N{K: KPropC, A: recv, Str: g.ops(), Chain: ch}
+		c.L = []*N{g.intExpr(depth, "chain/arg")}
+		c.Star = []int{0}
+		return c
+	case 1:
+		c := &N{K: KPropC, A: recv, Str: "m0", Chain: ch}
+		g.callArgs(c, 1+g.t.Intn(2), []string{"k"}, depth, true)
+		return c
+	default:
+		if g.noBrace > 0 {
+			c := &N{K: KPropC, A: recv, Str: g.ops(), Chain: ch}
+			c.L = []*N{g.intExpr(depth, "chain/arg")}
+			c.Star = []int{0}
+			return c
+		}
+		f := g.funcLit(1, nil, false, true, depth, []string{"x"})
+		return &N{K: KLitC, A: recv, B: f, Chain: ch}
+	}
 }
 
 // listChain: recv@{|x| ...}, recv@^f, recv@+(e), [o, o]@m(e)
